@@ -668,6 +668,8 @@ def makerandCIJdegreesfixed(inv, outv, seed=None):
     rng = get_rng(seed)
 
     n = len(inv)
+    inv = np.asarray(inv, dtype=int)
+    outv = np.asarray(outv, dtype=int)
     k = np.sum(inv)
     in_inv = np.zeros((k,), dtype=int)
     out_inv = np.zeros((k,), dtype=int)
